@@ -30,14 +30,14 @@ def reduceDim {β : Type} (f : List α → β) (d : Data κ α) (dim : String) :
 def argCoord (ofκ : κ → α) (lt : α → α → Bool) (d : Data κ α) (dim : String) : Except Err (Data κ α) :=
   reduceDim (fun tr => ofκ ((d.coord dim).getD (argBest lt tr) default)) d dim
 
-def cumsumList [Add α] : List α → List α
+def cumsumList (add : α → α → α) : List α → List α
   | [] => []
-  | x :: xs => x :: (cumsumList xs).map (x + ·)
+  | x :: xs => x :: (cumsumList add xs).map (add x ·)
 
 /-- base.py cumulative_sum -/
-def cumulativeSum [Add α] (d : Data κ α) (dim : String) : Except Err (Data κ α) :=
+def cumulativeSum (add : α → α → α) (d : Data κ α) (dim : String) : Except Err (Data κ α) :=
   if dim ∉ d.dims then .error .value
-  else .ok { d with values := mapAxis cumsumList (d.ext dim) d.values (d.index dim) }
+  else .ok { d with values := mapAxis (cumsumList add) (d.ext dim) d.values (d.index dim) }
 
 /-- axis argument of a NumPy call -/
 inductive Axis | none | name (s : String) | pos (i : Int)
